@@ -2,6 +2,10 @@
 import json, sys
 props = {json.loads(l)["id"]: json.loads(l) for l in open("/verif/properties.jsonl")}
 pid = sys.argv[1]
+A, B = (sys.argv[2], sys.argv[3]) if len(sys.argv) > 3 else ("A", "B")
+ROUND2 = "" if A == "A" else """
+This is a SECOND round: the obvious sites (the main parsing/decoding routine of the feature, its most direct helper) were already used by an earlier round, so look further: lazily computed or cached state (first call vs second call on the same object, state shared between objects), less used API variants that answer the same question by another route, helper functions shared with other features, paths taken only for unusual-but-legal inputs (empty collections, maximal field values, duplicates, several items where one is usual, particular orders), and interactions of two inputs or two calls.
+"""
 p = props[pid]
 print(f"""You are helping to evaluate a verification tool by planting realistic bugs in a Python project. You work ONLY inside the scratch git clone /tmp/seed/{pid} (a checkout of the project `androguard`, a pure-Python parser for Android DEX/APK/binary-XML/ARSC files with a Dalvik decompiler). Do NOT read, list or use anything under /verif, and do NOT touch /repo. Interpreter: /venv/bin/python. To run code against THIS tree always use `cd /tmp/seed/{pid} && PYTHONPATH=/tmp/seed/{pid} /venv/bin/python ...` and confirm once that `import androguard; print(androguard.__file__)` points into /tmp/seed/{pid}. There is no network.
 
@@ -11,14 +15,14 @@ The property under test (this text is all you get about it):
   QUANTIFIED OVER: {p['quantifier']['text']}
   CODE IT LIVES IN: {', '.join(p['anchors']['files'])}
 
-YOUR TASK: produce TWO different, independent changes (call them A and B) to the androguard source (files under androguard/, never under tests/) such that each change
+YOUR TASK: produce TWO different, independent changes (call them {A} and {B}) to the androguard source (files under androguard/, never under tests/) such that each change
   1. breaks the property above (some input / sequence of operations / schedule now violates the statement),
   2. still imports and "compiles", and the project's existing test-suite still passes: run the relevant test files with `PYTHONPATH=/tmp/seed/{pid} /venv/bin/python -m pytest -q -p no:cacheprovider tests/<relevant>.py` (tests live in /tmp/seed/{pid}/tests; run them with cwd=/tmp/seed/{pid}); the baseline has these known failures which you may ignore: tests/test_apk.py::APKTest::testAPK, testCustomPermissionProtectionLevel, testFeatures, testFrameworkResAPK, testMultipleLocaleAppName and tests/test_strings.py::StringTest::testMUTF8. If you have time run the whole suite once per change (about 6 minutes: `... -m pytest -q -p no:cacheprovider --timeout=900 tests`),
   3. is REALISTIC (the kind of slip a maintainer could make in a refactoring, optimisation or "simplification": an off-by-one, a wrong mask/shift/sign, a dropped special case, a wrong comparison, a cache keyed too coarsely, a condition reordered, state not reset ...), and
-  4. needs something SPECIFIC to manifest - a particular unusual input, value at a boundary, multi-step sequence of operations, particular interleaving, or two cooperating code sites that each look fine alone - i.e. NOT something that ordinary use or the existing tests would expose at once. Prefer subtle over blatant; A and B should hit different mechanisms / different code sites.
-For each change write, in /tmp/seed/{pid}_out/A/ (resp. /B/):
+  4. needs something SPECIFIC to manifest - a particular unusual input, value at a boundary, multi-step sequence of operations, particular interleaving, or two cooperating code sites that each look fine alone - i.e. NOT something that ordinary use or the existing tests would expose at once. Prefer subtle over blatant; {A} and {B} should hit different mechanisms / different code sites.
+{ROUND2}For each change write, in /tmp/seed/{pid}_out/{A}/ (resp. /{B}/):
   - patch.diff : output of `git -C /tmp/seed/{pid} diff` (must apply with `git apply` to a clean checkout of the same commit),
-  - demo.py    : a small self-contained demonstration using only androguard's public API (and the standard library; you may construct input bytes by hand or take files from tests/data) that exits 0 and prints PASS on the UNMODIFIED tree and exits 1 and prints FAIL with the change applied; it must be runnable as `cd <tree> && PYTHONPATH=<tree> /venv/bin/python /tmp/seed/{pid}_out/A/demo.py`. Verify both outcomes yourself (save the diff to a file, `git checkout -- .`, later `git apply` the file; do not use `git stash`).
+  - demo.py    : a small self-contained demonstration using only androguard's public API (and the standard library; you may construct input bytes by hand or take files from tests/data) that exits 0 and prints PASS on the UNMODIFIED tree and exits 1 and prints FAIL with the change applied; it must be runnable as `cd <tree> && PYTHONPATH=<tree> /venv/bin/python /tmp/seed/{pid}_out/{A}/demo.py`. Verify both outcomes yourself (save the diff to a file, `git checkout -- .`, later `git apply` the file; do not use `git stash`).
   - meta.json  : {{"property": "{pid}", "summary": "<one line: what the change does>", "needs_to_manifest": "<what specific input/sequence triggers it>", "files_changed": [...], "tests_run": "<command(s)>", "tests_result": "<summary>"}}
-After saving A run `git -C /tmp/seed/{pid} checkout -- .` and do B from the clean tree. Leave the worktree clean (no uncommitted changes) at the end. Do not commit anything.
-Final message: for A and B one paragraph each (what, where, trigger, tests run and result, demo verified on both trees yes/no).""")
+After saving {A} run `git -C /tmp/seed/{pid} checkout -- .` and do {B} from the clean tree. Leave the worktree clean (no uncommitted changes) at the end. Do not commit anything.
+Final message: for {A} and {B} one paragraph each (what, where, trigger, tests run and result, demo verified on both trees yes/no).""")
